@@ -694,8 +694,9 @@ impl C14 {
                     }
                     // bytes read by the application in this hold come first out of `got` (an under-approximation
                     // of what is still buffered if earlier frames were sent before hand-over)
-                    unread_bytes += got.saturating_sub(h.nread) as u64;
-                    if h.nread == 0 {
+                    let inflight = h.reading.as_ref().map(|r| r.0).unwrap_or(0);
+                    unread_bytes += got.saturating_sub(h.nread + inflight) as u64;
+                    if h.nread == 0 && h.reading.is_none() {
                         unread_frames += pieces;
                     }
                 }
@@ -1101,28 +1102,555 @@ fn main() {
 
 // ------------------------------------------------------------------------------------------------
 // generator
+struct G<'a> {
+    rng: &'a mut StdRng,
+    ops: Vec<Value>,
+    /// next slot number per side
+    next_slot: [u64; 2],
+    /// slots created so far per side: (slot, queue 0/1, cap)
+    slots: [Vec<(u64, usize, u64)>; 2],
+    seq: u64,
+}
+
+fn caps_json(c: &[(u64, u32)]) -> Value {
+    Value::Array(c.iter().map(|(a, b)| json!([a, b])).collect())
+}
+
+impl<'a> G<'a> {
+    fn new(rng: &'a mut StdRng) -> Self {
+        G { rng, ops: vec![], next_slot: [1, 1], slots: [vec![], vec![]], seq: 0 }
+    }
+    fn reset(&mut self) {
+        self.next_slot = [1, 1];
+        self.slots = [vec![], vec![]];
+    }
+    fn r(&mut self, lo: u64, hi: u64) -> u64 {
+        self.rng.gen_range(lo..=hi)
+    }
+    fn pick<T: Copy>(&mut self, v: &[T]) -> T {
+        v[self.rng.gen_range(0..v.len())]
+    }
+    fn seed(&mut self, side: usize, slot: u64) -> u64 {
+        self.seq += 1;
+        (side as u64 * 101 + slot * 37 + self.seq * 13) % 251
+    }
+    fn cfg(&mut self) -> [u64; 4] {
+        let rfs = self.pick(&[1u64, 2, 3, 4, 5, 7, 8, 16, 100]);
+        let rbs = match self.r(0, 9) {
+            0 => rfs,
+            1 => rfs.saturating_sub(1).max(1),
+            2..=5 => rfs * self.r(1, 6) + self.r(0, 3),
+            _ => self.r(8, 200),
+        };
+        let rfc = self.pick(&[1u64, 1, 2, 3, 4, 6, 10]);
+        let wfs = self.pick(&[1u64, 2, 3, 5, 8, 13, 64]);
+        [rfs, rbs, rfc, wfs]
+    }
+    fn caps(&mut self, universe: &[u64]) -> Vec<(u64, u32)> {
+        let mut v = vec![];
+        for c in universe {
+            if self.r(0, 9) < 8 {
+                v.push((*c, self.pick(&[0u32, 1, 1, 2, 2, 3, 4])));
+            }
+        }
+        // BTreeMap input order does not matter: shuffle
+        if v.len() > 1 && self.r(0, 1) == 0 {
+            v.reverse();
+        }
+        v
+    }
+    fn init_raw(&mut self, cfg: [u64; 4], acc: &[(u64, u32)], con: &[(u64, u32)], pacc: &[(u64, u32)], pcon: &[(u64, u32)]) {
+        self.reset();
+        self.ops.push(json!({"op":"init","reset":true,"mode":"raw","cfg":cfg,"acc":caps_json(acc),"con":caps_json(con),"pacc":caps_json(pacc),"pcon":caps_json(pcon)}));
+    }
+    fn open(&mut self, side: usize, q: usize, cap: u64) -> u64 {
+        let slot = self.next_slot[side];
+        self.next_slot[side] += 1;
+        self.slots[side].push((slot, q, cap));
+        self.ops.push(json!({"op":"open","side":side,"q":q,"cap":cap,"slot":slot}));
+        slot
+    }
+    fn wire(&mut self, frames: Vec<Value>) {
+        self.ops.push(json!({"op":"wire","frames":frames}));
+    }
+    fn read(&mut self, side: usize, slot: u64, n: u64) {
+        self.ops.push(json!({"op":"read","side":side,"slot":slot,"n":n}));
+    }
+    fn write(&mut self, side: usize, slot: u64, n: u64) {
+        let seed = self.seed(side, slot);
+        self.ops.push(json!({"op":"write","side":side,"slot":slot,"n":n,"seed":seed}));
+    }
+    fn flush(&mut self, side: usize, slot: u64) {
+        self.ops.push(json!({"op":"flush","side":side,"slot":slot}));
+    }
+    fn drop(&mut self, side: usize, slot: u64, half: &str) {
+        self.ops.push(json!({"op":"drop","side":side,"slot":slot,"half":half}));
+    }
+    fn quiet(&mut self) {
+        self.ops.push(json!({"op":"quiet"}));
+    }
+    /// frame addressed to the stream a slot holds: fk 0 OPEN, 1 DATA, 2 CLOSE
+    fn sf(&mut self, slot: u64, fk: u64, n: u64) -> Value {
+        let seed = self.seed(0, slot);
+        json!(["s", slot, fk, n, seed])
+    }
+    /// raw frame from the peer; `conn_local`: addressed to one of our CONNECT streams
+    fn rf(&mut self, fk: u16, conn_local: bool, id: u16, n: u64) -> Value {
+        let hdr = fk | if conn_local { 0 } else { SK_CONNECT } | id;
+        let seed = self.seed(0, id as u64 + 50);
+        json!([hdr, n, seed])
+    }
+
+    /// the peer's initial CLOSE on every agreed stream (what a real peer mux sends first)
+    fn peer_initial_closes(&mut self, rng: &[Vec<(u64, u32, u32)>; 2]) {
+        let mut fs = vec![];
+        for q in 0..2 {
+            let total: u32 = rng[q].iter().map(|x| x.2).sum();
+            for id in 0..total {
+                fs.push(self.rf(FK_CLOSE, q == 1, id as u16, 0));
+            }
+        }
+        if !fs.is_empty() {
+            self.wire(fs);
+        }
+    }
+
+    // -------------------------------------------------------------------------------------------
+    /// cooperative-ish random session against the raw peer
+    fn raw_random(&mut self, len: usize, adversarial: bool) {
+        let cfg = self.cfg();
+        let uni = [0u64, 1, 5];
+        let (acc, con, pacc, pcon) = (self.caps(&uni), self.caps(&uni), self.caps(&[0, 1, 5, 9]), self.caps(&[0, 1, 5, 9]));
+        self.init_raw(cfg, &acc, &con, &pacc, &pcon);
+        let rg = [ranges(&cap_map(&acc), &pcon), ranges(&cap_map(&con), &pacc)];
+        let nacc: u32 = rg[0].iter().map(|x| x.2).sum();
+        if self.r(0, 9) < 7 {
+            self.peer_initial_closes(&rg);
+        }
+        let acc_caps: Vec<u64> = cap_map(&acc).keys().copied().collect();
+        let con_caps: Vec<u64> = cap_map(&con).keys().copied().collect();
+        for _ in 0..len {
+            let have: Vec<(u64, usize, u64)> = self.slots[0].clone();
+            let choice = self.r(0, 99);
+            match choice {
+                0..=7 if !con_caps.is_empty() => {
+                    let c = self.pick(&con_caps);
+                    let slot = self.open(0, 1, c);
+                    // usually the peer answers
+                    if self.r(0, 9) < 7 {
+                        let f = self.sf(slot, 0, 0);
+                        self.wire(vec![f]);
+                    }
+                }
+                8..=15 if nacc > 0 => {
+                    // the peer opens an accept stream, usually the application accepts
+                    let id = self.r(0, nacc as u64 - 1) as u16;
+                    let f = self.rf(FK_OPEN, false, id, 0);
+                    self.wire(vec![f]);
+                    if self.r(0, 9) < 8 {
+                        if let Some((c, _, _)) = rg[0].iter().find(|(_, b, n)| (id as u32) >= *b && (id as u32) < b + n) {
+                            self.open(0, 0, *c);
+                        }
+                    }
+                }
+                16..=19 if !acc_caps.is_empty() => {
+                    let c = self.pick(&acc_caps);
+                    self.open(0, 0, c);
+                }
+                20..=44 if !have.is_empty() => {
+                    // data from the peer, to one or several streams
+                    let k = self.r(1, 3);
+                    let mut fs = vec![];
+                    for _ in 0..k {
+                        let (slot, _, _) = self.pick(&have);
+                        let n = self.pick(&[0u64, 1, 2, 3, 5, 8, 13, 21, 40]);
+                        fs.push(self.sf(slot, 1, n));
+                    }
+                    self.wire(fs);
+                }
+                45..=64 if !have.is_empty() => {
+                    let (slot, _, _) = self.pick(&have);
+                    let n = self.pick(&[0u64, 1, 2, 3, 4, 7, 10, 16, 30]);
+                    self.read(0, slot, n);
+                }
+                65..=76 if !have.is_empty() => {
+                    let (slot, _, _) = self.pick(&have);
+                    let n = self.pick(&[0u64, 1, 2, 3, 5, 9, 17, 33]);
+                    self.write(0, slot, n);
+                    if self.r(0, 2) > 0 {
+                        self.flush(0, slot);
+                    }
+                }
+                77..=82 if !have.is_empty() => {
+                    let (slot, _, _) = self.pick(&have);
+                    let f = self.sf(slot, 2, 0);
+                    self.wire(vec![f]);
+                }
+                83..=90 if !have.is_empty() => {
+                    let (slot, _, _) = self.pick(&have);
+                    let h = self.pick(&["r", "w", "rw", "rw"]);
+                    self.drop(0, slot, h);
+                }
+                91..=94 if adversarial => {
+                    // frames nobody asked for: DATA / OPEN / CLOSE on arbitrary agreed ids
+                    let conn_local = self.r(0, 1) == 0;
+                    let total: u32 = rg[conn_local as usize].iter().map(|x| x.2).sum();
+                    if total > 0 {
+                        let id = self.r(0, total as u64 - 1) as u16;
+                        let fk = self.pick(&[FK_OPEN, FK_DATA, FK_CLOSE]);
+                        let n = self.r(0, 9);
+                        let f = self.rf(fk, conn_local, id, n);
+                        self.wire(vec![f]);
+                    }
+                }
+                _ => self.quiet(),
+            }
+        }
+        // drain: read whatever is left on every slot
+        let have: Vec<(u64, usize, u64)> = self.slots[0].clone();
+        for (slot, _, _) in have {
+            if self.r(0, 2) == 0 {
+                self.read(0, slot, 64);
+            }
+        }
+        self.quiet();
+    }
+
+    /// never-reading application, sender that ignores flow control
+    fn raw_flood(&mut self) {
+        let rfs = self.pick(&[1u64, 2, 4, 8, 16]);
+        let rbs = rfs * self.r(1, 5) + self.r(0, 2);
+        let rfc = self.r(1, 6);
+        let cfg = [rfs, rbs, rfc, 8];
+        let na = self.r(1, 3) as u32;
+        self.init_raw(cfg, &[(2, na)], &[(2, 1)], &[(2, 1)], &[(2, na + 1)]);
+        let mut slots = vec![];
+        for id in 0..na {
+            let f = self.rf(FK_OPEN, false, id as u16, 0);
+            self.wire(vec![f]);
+            if self.r(0, 3) > 0 {
+                slots.push(self.open(0, 0, 2));
+            }
+        }
+        // flood: data frames far beyond the buffer, control frames beyond the frame count
+        for _ in 0..self.r(2, 6) {
+            let mut fs = vec![];
+            for _ in 0..self.r(1, 4) {
+                let id = self.r(0, na as u64 - 1) as u16;
+                match self.r(0, 5) {
+                    0 => fs.push(self.rf(FK_CLOSE, false, id, 0)),
+                    1 => fs.push(self.rf(FK_OPEN, false, id, 0)),
+                    _ => {
+                        let n = self.pick(&[1u64, 3, rfs, rfs + 1, rbs, rbs + 1, 2 * rbs + 3, 300]);
+                        fs.push(self.rf(FK_DATA, false, id, n));
+                    }
+                }
+            }
+            self.wire(fs);
+        }
+        self.quiet();
+        // now the application reads a little: the mux may pull exactly as much as was consumed
+        for _ in 0..self.r(1, 5) {
+            if slots.is_empty() {
+                break;
+            }
+            let s = self.pick(&slots);
+            let n = self.pick(&[1u64, 2, rfs, rfs + 1, rbs, 50]);
+            self.read(0, s, n);
+        }
+        if !slots.is_empty() && self.r(0, 1) == 0 {
+            // dropping a reader discards what is queued for it and frees its permits
+            let s = self.pick(&slots);
+            self.drop(0, s, "rw");
+        }
+        self.quiet();
+    }
+
+    /// more streams than agreed, unknown ids, invalid frame kinds
+    fn raw_limits(&mut self, variant: u64) {
+        let cfg = [4, 32, 4, 4];
+        let (la, pc) = (self.r(0, 3) as u32, self.r(0, 3) as u32);
+        let (lc, pa) = (self.r(0, 3) as u32, self.r(0, 3) as u32);
+        self.init_raw(cfg, &[(1, la), (4, 1)], &[(1, lc)], &[(1, pa)], &[(1, pc), (4, 2)]);
+        let nacc = std::cmp::min(la, pc) + 1;
+        let ncon = std::cmp::min(lc, pa);
+        // establish one stream so that there is something to observe after the run dies
+        let f = self.rf(FK_OPEN, false, (nacc - 1) as u16, 0);
+        self.wire(vec![f]);
+        let s = self.open(0, 0, 4);
+        let f = self.sf(s, 1, 6);
+        self.wire(vec![f]);
+        self.write(0, s, 3);
+        let fk = self.pick(&[FK_OPEN, FK_DATA, FK_CLOSE]);
+        let f = match variant % 6 {
+            0 => self.rf(fk, false, nacc as u16, 2),              // first accept id that was not agreed
+            1 => self.rf(fk, true, ncon as u16, 2),               // first connect id that was not agreed
+            2 => {
+                let cl = self.r(0, 1) == 0;
+                self.rf(fk, cl, 8191, 2) // largest id
+            }
+            3 => self.rf(FK_MASK, false, (nacc - 1) as u16, 0),   // both kind bits, valid id
+            4 => self.rf(FK_MASK, true, 8000, 0),                 // both kind bits, unknown id
+            _ => self.rf(fk, false, (nacc - 1) as u16, 2),        // last valid id: fine
+        };
+        self.wire(vec![f]);
+        self.read(0, s, 4);
+        self.read(0, s, 10);
+        self.write(0, s, 5);
+        self.flush(0, s);
+        self.open(0, 0, 4);
+        self.quiet();
+    }
+
+    /// handshake / config boundaries
+    fn raw_config(&mut self, variant: u64) {
+        match variant % 8 {
+            0 => self.init_raw([4, 16, 2, 4], &[(0, 8192)], &[(0, 1)], &[(0, 1)], &[(0, 2)]),
+            1 => self.init_raw([4, 16, 2, 4], &[(0, 8192), (1, 1)], &[(0, 1)], &[(0, 1)], &[(0, 2), (1, 1)]),
+            2 => self.init_raw([4, 16, 2, 4], &[(0, 1)], &[(0, 4096), (9, 4097)], &[(0, 1)], &[(0, 2)]),
+            3 => self.init_raw([4, 16, 2, 65535], &[(0, 1)], &[(0, 1)], &[(0, 1)], &[(0, 1)]),
+            4 => self.init_raw([4, 16, 2, 65536], &[(0, 1)], &[(0, 1)], &[(0, 1)], &[(0, 1)]),
+            5 => self.init_raw([4, 16, 2, 4], &[(0, 2)], &[(0, 2)], &[(0, 1), (0, 2)], &[(0, 2)]),
+            6 => self.init_raw([4, 16, 2, 4], &[(0, 2), (3, 2)], &[(0, 2)], &[(0, 4294967295)], &[(3, 4294967295), (7, 3)]),
+            _ => self.init_raw([4, 16, 2, 4], &[(0, 2), (0, 3), (2, 1)], &[(6, 2), (2, 2)], &[(2, 9), (6, 1)], &[(2, 1), (0, 9)]),
+        }
+        let a = self.open(0, 0, 0);
+        let c = self.open(0, 1, 0);
+        let f = vec![self.rf(FK_OPEN, false, 0, 0), self.rf(FK_OPEN, false, 1, 0), self.rf(FK_OPEN, false, 2, 0)];
+        self.wire(f);
+        let f = self.sf(c, 0, 0);
+        self.wire(vec![f]);
+        self.write(0, a, 5);
+        self.flush(0, a);
+        self.open(0, 1, 6);
+        self.open(0, 0, 2);
+        self.open(0, 0, 77);
+        self.quiet();
+    }
+
+    /// reuse of one reusable stream: lock hand-over, early drops, sessions must not leak into each other
+    fn raw_reuse(&mut self) {
+        let cfg = [self.pick(&[2u64, 4, 100]), 64, 8, self.pick(&[3u64, 8])];
+        let conn = self.r(0, 1) == 1;
+        let q = conn as usize;
+        self.init_raw(cfg, &[(3, 1)], &[(3, 1)], &[(3, 1)], &[(3, 1)]);
+        if self.r(0, 1) == 0 {
+            let f = vec![self.rf(FK_CLOSE, false, 0, 0), self.rf(FK_CLOSE, true, 0, 0)];
+            self.wire(f);
+        }
+        let mut prev: Option<u64> = None;
+        for round in 0..self.r(2, 4) {
+            // open
+            let s;
+            if conn {
+                s = self.open(0, 1, 3);
+                let f = self.rf(FK_OPEN, true, 0, 0);
+                self.wire(vec![f]);
+            } else {
+                let f = self.rf(FK_OPEN, false, 0, 0);
+                self.wire(vec![f]);
+                s = self.open(0, 0, 3);
+            }
+            let _ = prev;
+            // traffic in both directions
+            let n1 = self.r(1, 12);
+            let f = self.rf(FK_DATA, conn, 0, n1);
+            self.wire(vec![f]);
+            let wn = self.pick(&[1u64, 4, 9]);
+            self.write(0, s, wn);
+            let k = self.r(0, n1 + 2);
+            self.read(0, s, k);
+            match (round + self.r(0, 3)) % 4 {
+                0 => {
+                    // orderly: peer closes, reader sees EOS, both halves dropped
+                    let f = self.rf(FK_CLOSE, conn, 0, 0);
+                    self.wire(vec![f]);
+                    self.read(0, s, 40);
+                    self.drop(0, s, "rw");
+                }
+                1 => {
+                    // write half first: CLOSE goes out, the stream is offered again, but the next transient stream
+                    // must wait for the read half
+                    self.drop(0, s, "w");
+                    let s2 = self.open(0, q, 3);
+                    let f = vec![self.rf(FK_DATA, conn, 0, 5), self.rf(FK_CLOSE, conn, 0, 0), self.rf(FK_OPEN, conn, 0, 0), self.rf(FK_DATA, conn, 0, 7)];
+                    self.wire(f);
+                    self.read(0, s, 3);
+                    self.read(0, s2, 3);
+                    self.drop(0, s, "r");
+                    self.read(0, s2, 9);
+                    let f = self.rf(FK_CLOSE, conn, 0, 0);
+                    self.wire(vec![f]);
+                    self.read(0, s2, 9);
+                    self.drop(0, s2, "rw");
+                }
+                2 => {
+                    // reader gives up early: queued and cached data of the old session is discarded
+                    let f = vec![self.rf(FK_DATA, conn, 0, 9), self.rf(FK_DATA, conn, 0, 4)];
+                    self.wire(f);
+                    self.read(0, s, 1);
+                    self.drop(0, s, "r");
+                    self.write(0, s, 6);
+                    self.drop(0, s, "w");
+                    let f = self.rf(FK_CLOSE, conn, 0, 0);
+                    self.wire(vec![f]);
+                }
+                _ => {
+                    // read half only: nothing happens until the write half goes too
+                    self.drop(0, s, "r");
+                    let s2 = self.open(0, q, 3);
+                    self.quiet();
+                    self.write(0, s, 2);
+                    self.drop(0, s, "w");
+                    let f = vec![self.rf(FK_CLOSE, conn, 0, 0), self.rf(FK_OPEN, conn, 0, 0), self.rf(FK_DATA, conn, 0, 3), self.rf(FK_CLOSE, conn, 0, 0)];
+                    self.wire(f);
+                    self.read(0, s2, 5);
+                    self.drop(0, s2, "rw");
+                }
+            }
+            prev = Some(s);
+        }
+        self.quiet();
+    }
+
+    /// transport closed by the peer in the middle of a session
+    fn raw_eof(&mut self) {
+        let cfg = [4, 64, 8, 4];
+        self.init_raw(cfg, &[(0, 2)], &[(0, 2)], &[(0, 2)], &[(0, 2)]);
+        let f = self.rf(FK_OPEN, false, 1, 0);
+        self.wire(vec![f]);
+        let a = self.open(0, 0, 0);
+        let c = self.open(0, 1, 0);
+        let f = self.sf(c, 0, 0);
+        self.wire(vec![f]);
+        let c2 = self.open(0, 1, 0);
+        let f = vec![self.sf(a, 1, 10), self.sf(c, 1, 3)];
+        self.wire(f);
+        self.read(0, c, 8);
+        self.write(0, a, 3);
+        self.ops.push(json!({"op":"eof"}));
+        self.read(0, a, 4);
+        self.read(0, a, 20);
+        self.read(0, a, 1);
+        self.write(0, a, 6);
+        self.flush(0, a);
+        self.flush(0, c);
+        self.drop(0, a, "rw");
+        self.read(0, c2, 1);
+        self.quiet();
+    }
+
+    /// two real muxes back to back, buffers large enough that no flow control interferes
+    fn pair_random(&mut self, len: usize) {
+        self.reset();
+        let cfg_a = [self.pick(&[1u64, 3, 16, 100]), 100_000, 10_000, self.pick(&[1u64, 2, 7, 64])];
+        let cfg_b = [self.pick(&[2u64, 5, 80]), 100_000, 10_000, self.pick(&[3u64, 10, 150])];
+        let uni = [0u64, 1, 2];
+        let (acc, con, pacc, pcon) = (self.caps(&uni), self.caps(&uni), self.caps(&uni), self.caps(&uni));
+        self.ops.push(json!({"op":"init","reset":true,"mode":"pair","cfg":cfg_a,"pcfg":cfg_b,"acc":caps_json(&acc),"con":caps_json(&con),"pacc":caps_json(&pacc),"pcon":caps_json(&pcon)}));
+        let caps: [[Vec<u64>; 2]; 2] = [
+            [cap_map(&acc).keys().copied().collect(), cap_map(&con).keys().copied().collect()],
+            [cap_map(&pacc).keys().copied().collect(), cap_map(&pcon).keys().copied().collect()],
+        ];
+        for _ in 0..len {
+            let side = self.r(0, 1) as usize;
+            let have: Vec<(u64, usize, u64)> = self.slots[side].clone();
+            match self.r(0, 99) {
+                0..=11 => {
+                    // connect on one side, usually accept on the other
+                    if !caps[side][1].is_empty() {
+                        let c = self.pick(&caps[side][1]);
+                        self.open(side, 1, c);
+                        if self.r(0, 9) < 8 && caps[1 - side][0].contains(&c) {
+                            self.open(1 - side, 0, c);
+                        }
+                    }
+                }
+                12..=15 => {
+                    if !caps[side][0].is_empty() {
+                        let c = self.pick(&caps[side][0]);
+                        self.open(side, 0, c);
+                    }
+                }
+                16..=45 if !have.is_empty() => {
+                    let (slot, _, _) = self.pick(&have);
+                    let n = self.pick(&[0u64, 1, 2, 3, 6, 11, 25, 60, 200]);
+                    self.write(side, slot, n);
+                    if self.r(0, 3) > 0 {
+                        self.flush(side, slot);
+                    }
+                }
+                46..=75 if !have.is_empty() => {
+                    let (slot, _, _) = self.pick(&have);
+                    let n = self.pick(&[0u64, 1, 2, 4, 9, 20, 64, 250]);
+                    self.read(side, slot, n);
+                }
+                76..=79 if !have.is_empty() => {
+                    let (slot, _, _) = self.pick(&have);
+                    self.flush(side, slot);
+                }
+                80..=92 if !have.is_empty() => {
+                    let (slot, _, _) = self.pick(&have);
+                    let h = self.pick(&["r", "w", "w", "rw", "rw"]);
+                    self.drop(side, slot, h);
+                }
+                _ => self.quiet(),
+            }
+        }
+        for side in 0..2 {
+            let have: Vec<(u64, usize, u64)> = self.slots[side].clone();
+            for (slot, _, _) in have {
+                if self.r(0, 1) == 0 {
+                    self.drop(side, slot, "w");
+                }
+            }
+        }
+        for side in 0..2 {
+            let have: Vec<(u64, usize, u64)> = self.slots[side].clone();
+            for (slot, _, _) in have {
+                self.read(side, slot, 1000);
+            }
+        }
+        self.quiet();
+    }
+}
+
 fn gen_all(opts: &Opts) -> Vec<Value> {
     let mut rng: StdRng = opts.rng();
-    let mut ops = vec![];
-    let _ = rng.gen::<u8>();
-    // probe script
-    ops.push(json!({"op":"init","reset":true,"mode":"raw","cfg":[4,16,4,5],"acc":[[0,2],[3,1]],"con":[[0,2],[7,2]],"pacc":[[0,1],[7,5]],"pcon":[[0,2],[3,4]]}));
-    ops.push(json!({"op":"open","q":1,"cap":7,"slot":1}));
-    ops.push(json!({"op":"open","q":1,"cap":7,"slot":2}));
-    ops.push(json!({"op":"open","q":1,"cap":7,"slot":3}));
-    ops.push(json!({"op":"wire","frames":[["s",2,0,0,0],["s",1,0,0,0]]}));
-    ops.push(json!({"op":"write","slot":1,"n":12,"seed":1}));
-    ops.push(json!({"op":"flush","slot":1}));
-    ops.push(json!({"op":"wire","frames":[["s",1,1,10,5],["s",2,1,30,7]]}));
-    ops.push(json!({"op":"read","slot":1,"n":3}));
-    ops.push(json!({"op":"read","slot":1,"n":30}));
-    ops.push(json!({"op":"wire","frames":[["s",1,2,0,0]]}));
-    ops.push(json!({"op":"read","slot":2,"n":7}));
-    ops.push(json!({"op":"drop","slot":1,"half":"rw"}));
-    ops.push(json!({"op":"open","q":0,"cap":0,"slot":5}));
-    ops.push(json!({"op":"open","q":0,"cap":0,"slot":6}));
-    ops.push(json!({"op":"wire","frames":[[0x2001,0,0],[0x2000,0,0]]}));
-    ops.push(json!({"op":"wire","frames":[[0x2005,0,0]]}));
-    ops.push(json!({"op":"quiet"}));
-    ops
+    let mut g = G::new(&mut rng);
+    // directed families (always)
+    for v in 0..8 {
+        g.raw_config(v);
+    }
+    for v in 0..12 {
+        g.raw_limits(v);
+    }
+    for _ in 0..6 {
+        g.raw_reuse();
+    }
+    g.raw_eof();
+    for _ in 0..10 {
+        g.raw_flood();
+    }
+    // random sessions; opts.n = number of sessions
+    let n = opts.n;
+    for i in 0..n {
+        match i % 10 {
+            0..=3 => {
+                let len = g.r(10, 45) as usize;
+                g.raw_random(len, false)
+            }
+            4 | 5 => {
+                let len = g.r(10, 45) as usize;
+                g.raw_random(len, true)
+            }
+            6 => g.raw_flood(),
+            7 => g.raw_reuse(),
+            _ => {
+                let len = g.r(15, 60) as usize;
+                g.pair_random(len)
+            }
+        }
+    }
+    g.ops
 }
